@@ -3,6 +3,8 @@
 package mutation
 
 // Contracts for fvc (see /verif/DESIGN.md). Comment-only file.
+//@ import executiongroup "github.com/furiko-io/furiko/apis/execution"
+
 // Mutators change their argument in place; every field they may touch is pinned to a function of the input
 // and the dynamic configuration, and `modifies` states what else stays unchanged.
 
@@ -63,3 +65,27 @@ package mutation
 //@   ensures [C16] ttl-kept-if-set: old(rj.Spec.TTLSecondsAfterFinished) != nil ==> rj.Spec.TTLSecondsAfterFinished == old(rj.Spec.TTLSecondsAfterFinished)
 //@   ensures [C16] template-present-with-defaults: len(result.Errors) == 0 ==> rj.Spec.Template != nil && rj.Spec.Template.MaxAttempts != nil
 //@        && (old(rj.Spec.Template) != nil && old(rj.Spec.Template.MaxAttempts) != nil ? rj.Spec.Template.MaxAttempts == old(rj.Spec.Template.MaxAttempts) : *rj.Spec.Template.MaxAttempts == 1)
+
+// the JobConfig lister of the webhook's informer factory (a long chain of generated getters): ASSUMED
+//@ extern func Mutator.getJobConfigLister
+//@   params m, namespace
+//@   ensures listerNS(result) == namespace
+
+// configName expansion (C16): the Job receives the JobConfig's template, an owner reference and UID label for that JobConfig,
+// the JobConfig's concurrency policy unless one was given (other start-policy fields are kept), and configName is cleared
+//@ func Mutator.evaluateConfigName
+//@   tags C16, C07
+//@   requires m != nil && rj != nil
+//@   modifies clock, rj.Labels, rj.Annotations, rj.Finalizers, rj.OwnerReferences, rj.Spec.Template, rj.Spec.StartPolicy, rj.Spec.ConfigName, heap(v1alpha1.StartPolicySpec), maps(string, string)
+//@   ensures [C16] no-config-name-is-a-no-op: rjcName == "" ==> *rj == old(*rj) && len(result.Errors) == 0
+//@   ensures [C16] unknown-jobconfig-is-an-error: rjcName != "" && jcCached(rj.Namespace, rjcName) == nil ==> len(result.Errors) > 0
+//@   ensures [C16] expanded: rjcName != "" && len(result.Errors) == 0 ==> (let jc = jcCached(rj.Namespace, rjcName) in jc != nil
+//@        && rj.Spec.ConfigName == "" && rj.Spec.Template != nil && rj.Spec.Template.MaxAttempts == jc.Spec.Template.Spec.MaxAttempts
+//@        && len(rj.OwnerReferences) == 1 && rj.OwnerReferences[0].UID == jc.UID && rj.OwnerReferences[0].Name == jc.Name && rj.OwnerReferences[0].Controller != nil && *rj.OwnerReferences[0].Controller
+//@        && (jobconfig.LabelKeyJobConfigUID in rj.Labels) && rj.Labels[jobconfig.LabelKeyJobConfigUID] == string(jc.UID)
+//@        && rj.Spec.StartPolicy != nil
+//@        && rj.Spec.StartPolicy.ConcurrencyPolicy == ((old(rj.Spec.StartPolicy) != nil && old(rj.Spec.StartPolicy.ConcurrencyPolicy) != "") ? old(rj.Spec.StartPolicy.ConcurrencyPolicy) : jc.Spec.Concurrency.Policy)
+//@        && (old(rj.Spec.StartPolicy) != nil ==> rj.Spec.StartPolicy.StartAfter == old(rj.Spec.StartPolicy.StartAfter)))
+//@   ensures [C16] submitter-labels-win-otherwise: rjcName != "" && len(result.Errors) == 0 ==>
+//@        (forall k string :: k != jobconfig.LabelKeyJobConfigUID && old(k in rj.Labels) ==> (k in rj.Labels) && rj.Labels[k] == old(rj.Labels[k]))
+//@   ensures [C13,C16] finalizer-carried: rjcName != "" && len(result.Errors) == 0 ==> meta.contains(rj.Finalizers, executiongroup.DeleteDependentsFinalizer)
